@@ -173,6 +173,9 @@ type Writer struct {
 	caseType  string // Coq type of a case
 	checkFn   string // name of check function: case -> bool
 	oracleFn  string // name of oracle function: case -> option N
+	// InfoFn (optional): a second check function case -> bool whose failures are REPORTED (evidence: informational_mismatches)
+	// but raise no alarm: agreement on observations the property does not speak about (e.g. the metrics a decorator emits)
+	InfoFn string
 	perShard  int
 	cases     []Case
 	Stats     Stats
@@ -255,6 +258,9 @@ func (w *Writer) Finish(rule string) error {
 		fmt.Fprintf(&sb, "Definition mism := Eval vm_compute in (mismatches %s cases).\n", w.checkFn)
 		fmt.Fprintf(&sb, "Definition orac := Eval vm_compute in (oracle_failures %s cases).\n", w.oracleFn)
 		sb.WriteString("Print mism.\nPrint orac.\n")
+		if w.InfoFn != "" {
+			fmt.Fprintf(&sb, "Definition info := Eval vm_compute in (mismatches %s cases).\nPrint info.\n", w.InfoFn)
+		}
 		if err := os.WriteFile(filepath.Join(w.args.OutDir, name), []byte(sb.String()), 0o644); err != nil {
 			return err
 		}
